@@ -1,0 +1,111 @@
+//go:build verif
+
+package gpkg
+
+// Verification hook (build tag "verif" only; nothing of this file is compiled without the tag).
+//
+// The GeoPackage library (github.com/go-spatial/geom/encoding/gpkg) opens files through a
+// database/sql driver called "spatialite" and, when no such driver is registered yet, registers one
+// that loads libspatialite.  Where libspatialite is not installed no GeoPackage can be opened at all.
+// This file registers a stand-in under the same name first (the library's drivername() then reuses
+// it): plain SQLite (the go-sqlite3 driver the library links anyway, rtree module compiled in) plus
+// pure-Go versions of the five SQL functions the library's rtree triggers call, evaluated on
+// GeoPackage binary blobs with the library's own decoder.
+//
+// go-sqlite3 is an indirect requirement in go.mod.  Importing it here would make `go build -mod=mod
+// -tags verif` rewrite go.mod, so the driver value is taken from database/sql ("sqlite3" is registered
+// by go-sqlite3's init, which runs before this one) and a fresh driver of the same type gets its
+// ConnectHook through reflection.
+
+import (
+	"database/sql"
+	"database/sql/driver"
+	"fmt"
+	"reflect"
+
+	"github.com/go-spatial/geom"
+	"github.com/go-spatial/geom/cmp"
+	gsgpkg "github.com/go-spatial/geom/encoding/gpkg"
+)
+
+// verifExtent returns the extent of the geometry in a GeoPackage blob; empty = NULL or empty geometry.
+func verifExtent(v interface{}) (ext *geom.Extent, empty bool, err error) {
+	if v == nil {
+		return nil, true, nil
+	}
+	blob, ok := v.([]byte)
+	if !ok {
+		return nil, false, fmt.Errorf("verif spatialite stand-in: geometry argument is %T, not a blob", v)
+	}
+	sb, err := gsgpkg.DecodeGeometry(blob)
+	if err != nil {
+		return nil, false, err
+	}
+	if sb.Header.IsGeometryEmpty() || cmp.IsEmptyGeo(sb.Geometry) {
+		return nil, true, nil
+	}
+	ext, err = geom.NewExtentFromGeometry(sb.Geometry)
+	if err != nil {
+		return nil, false, err
+	}
+	return ext, ext == nil, nil
+}
+
+func verifExtentFunc(pick func(e *geom.Extent) float64) func(v interface{}) (interface{}, error) {
+	return func(v interface{}) (interface{}, error) {
+		ext, empty, err := verifExtent(v)
+		if err != nil || empty {
+			return nil, err
+		}
+		return pick(ext), nil
+	}
+}
+
+var verifSQLFuncs = map[string]interface{}{
+	"ST_IsEmpty": func(v interface{}) (interface{}, error) {
+		if v == nil {
+			return nil, nil
+		}
+		_, empty, err := verifExtent(v)
+		if err != nil {
+			return nil, err
+		}
+		if empty {
+			return int64(1), nil
+		}
+		return int64(0), nil
+	},
+	"ST_MinX": verifExtentFunc(func(e *geom.Extent) float64 { return e.MinX() }),
+	"ST_MaxX": verifExtentFunc(func(e *geom.Extent) float64 { return e.MaxX() }),
+	"ST_MinY": verifExtentFunc(func(e *geom.Extent) float64 { return e.MinY() }),
+	"ST_MaxY": verifExtentFunc(func(e *geom.Extent) float64 { return e.MaxY() }),
+}
+
+func init() {
+	for _, name := range sql.Drivers() {
+		if name == gsgpkg.SPATIALITE {
+			return
+		}
+	}
+	db, err := sql.Open("sqlite3", ":memory:") // does not connect; only looks the driver up
+	if err != nil {
+		panic(fmt.Errorf("verif spatialite stand-in: no sqlite3 driver: %w", err))
+	}
+	base := db.Driver()
+	_ = db.Close()
+
+	drv := reflect.New(reflect.TypeOf(base).Elem()) // *sqlite3.SQLiteDriver
+	hook := drv.Elem().FieldByName("ConnectHook")   // func(*sqlite3.SQLiteConn) error
+	errType := hook.Type().Out(0)
+	hook.Set(reflect.MakeFunc(hook.Type(), func(args []reflect.Value) []reflect.Value {
+		register := args[0].MethodByName("RegisterFunc") // (name string, impl interface{}, pure bool) error
+		for name, impl := range verifSQLFuncs {
+			out := register.Call([]reflect.Value{reflect.ValueOf(name), reflect.ValueOf(impl), reflect.ValueOf(true)})
+			if !out[0].IsNil() {
+				return out
+			}
+		}
+		return []reflect.Value{reflect.Zero(errType)}
+	}))
+	sql.Register(gsgpkg.SPATIALITE, drv.Interface().(driver.Driver))
+}
